@@ -162,3 +162,52 @@ pub fn c13_columns_in_bounds() {
     cover!(true, "end reached");
     sym::forget(r);
 }
+
+// @h prop=C13 tier=quick kind=must_panic inst="ReadSlice<MirrorRegion<u8>> region-backed, EMPTY item between two neighbours" bounds="items of 2, 0, 2 symbolic bytes; the empty middle item, any i >= 0" desc="every position of an empty item is out of bounds: get(i) panics instead of returning the next item's element"
+#[cfg_attr(kani, kani::proof, kani::unwind(5))]
+pub fn c13_slice_empty_item_oob() {
+    let mut r = SliceRegion::<MirrorRegion<u8>>::default();
+    let a = Bytes::<3>::any_len(2);
+    let e = Bytes::<3>::any_len(0);
+    let c = Bytes::<3>::any_len(2);
+    let _ = r.push(a.as_slice());
+    let ie = r.push(e.as_slice());
+    let _ = r.push(c.as_slice());
+    let item = r.index(ie);
+    assert!(item.len() == 0 && item.is_empty(), "C13: empty item has a length");
+    let i = sym::usize();
+    let _ = item.get(i);
+    assert!(false, "MUST-PANIC: ReadSlice::get(i) on an empty item returned an element");
+}
+
+// @h prop=C13 tier=quick kind=must_panic inst="ReadSlice<MirrorRegion<u8>> region-backed, last item of the region" bounds="items of 2 and 1 symbolic bytes; the last item, any i >= 1" desc="out of bounds on the last item panics (no neighbour behind it)"
+#[cfg_attr(kani, kani::proof, kani::unwind(5))]
+pub fn c13_slice_last_item_oob() {
+    let mut r = SliceRegion::<MirrorRegion<u8>>::default();
+    let a = Bytes::<3>::any_len(2);
+    let b = Bytes::<3>::any_len(1);
+    let _ = r.push(a.as_slice());
+    let ib = r.push(b.as_slice());
+    let item = r.index(ib);
+    let i = sym::usize();
+    sym::assume(i >= 1);
+    let _ = item.get(i);
+    assert!(false, "MUST-PANIC: ReadSlice::get(i >= len) on the last item returned an element");
+}
+
+// @h prop=C13 tier=quick kind=must_panic inst="ReadColumns<MirrorRegion<u8>> region-backed, EMPTY row between two rows" bounds="rows of 2, 0, 2 symbolic cells; the empty middle row, any i >= 0" desc="get(i) on an empty row panics instead of returning a neighbouring row's cell"
+#[cfg_attr(kani, kani::proof, kani::unwind(6))]
+pub fn c13_columns_empty_row_oob() {
+    let mut r = ColumnsRegion::<MirrorRegion<u8>>::default();
+    let a = Bytes::<3>::any_len(2);
+    let e = Bytes::<3>::any_len(0);
+    let c = Bytes::<3>::any_len(2);
+    let _ = r.push(a.as_slice());
+    let ie = r.push(e.as_slice());
+    let _ = r.push(c.as_slice());
+    let row = r.index(ie);
+    assert!(row.len() == 0 && row.is_empty(), "C13: empty row has a length");
+    let i = sym::usize();
+    let _ = row.get(i);
+    assert!(false, "MUST-PANIC: ReadColumns::get(i) on an empty row returned a cell");
+}
